@@ -164,6 +164,34 @@ func (e *Engine) builtinSpec(fr *frame, fn *ssa.Function, args []Val, st *State,
 		}
 	}
 	switch fn.String() {
+	case "(*github.com/cosmos/cosmos-sdk/codec.ProtoCodec).UnmarshalJSON":
+		// cdc.UnmarshalJSON(bz, &d) with d an ICS-20 FungibleTokenPacketData: whether the bytes decode, and
+		// to what, are the uninterpreted functions isICS20 / ics20Of of the bytes - the same two functions the
+		// trusted spec of the wrapped ICS-20 application is written over (it decodes with the same codec).
+		// On failure the destination is unconstrained (jsonpb may have filled part of it). The message has
+		// string fields only (no Any, no repeated field), so the decoder is assumed not to panic on it.
+		if len(fr.curCallArgs) == 3 {
+			if mi, ok := fr.curCallArgs[2].(*ssa.MakeInterface); ok {
+				if pt, ok := mi.X.Type().Underlying().(*types.Pointer); ok {
+					if nt, ok := types.Unalias(pt.Elem()).(*types.Named); ok && nt.Obj().Name() == "FungibleTokenPacketData" && nt.Obj().Pkg() != nil && strings.HasSuffix(nt.Obj().Pkg().Path(), "modules/apps/transfer/types") {
+						_, h1 := e.specs.funSigs["isICS20"]
+						_, h2 := e.specs.funSigs["ics20Of"]
+						if h1 && h2 {
+							bv := vc.bytesVal(st, args[1].t)
+							errv := vc.havocVal(fn.Signature.Results().At(0).Type(), "err_ics20json", st.alloc)
+							vc.assume(alive, "(= (= (itag "+errv.t+") 0) (isICS20 "+bv+"))")
+							okc := "(= (itag " + errv.t + ") 0)"
+							dst := fr.operand(mi.X, fr.curEnv)
+							junk := vc.havocVal(pt.Elem(), "ics20_partial", st.alloc)
+							fr.storeThrough(st, dst, pt.Elem(), Val{t: "(ite " + okc + " (ics20Of " + bv + ") " + junk.t + ")"}, alive, fn.Pos(), func(kind, what string, pos token.Pos, cond string) {})
+							vc.usedSpecs["(*codec.ProtoCodec).UnmarshalJSON into an ICS-20 FungibleTokenPacketData: success and result are the uninterpreted functions isICS20/ics20Of of the bytes; assumed not to panic (string fields only) [engine built-in]"] = true
+							return &errv
+						}
+					}
+				}
+			}
+		}
+		return nil
 	case "encoding/json.Unmarshal":
 		// json.Unmarshal(data, &m) with m a map[string]any: the resulting map is a function of the
 		// bytes (uninterpreted): which root keys exist, how many, and each value. Nothing else is said.
